@@ -4,11 +4,12 @@ from fractions import Fraction
 
 from .. import translate as T
 from ..gen import mesh as G
+from ..gen import c15_source as CS
 from .c01 import Spec, _rotmin
 
 PID = "C15"
 TITLE = "Border and feature extraction are exact"
-LEAN_MODULES = ["Mouette.Props.C15", "Mouette.Props.C15Border", "Mouette.Props.C15Runs"]
+LEAN_MODULES = ["Mouette.Props.C15", "Mouette.Props.C15Border", "Mouette.Props.C15Runs", "Mouette.Props.C15Source"]
 REQUIRED_THEOREMS = [
     "thresholds_bridge", "sharp_threshold_is_sixty_degrees", "hard_threshold_is_arccos", "cosLt_unit_iff", "cosLt_scale_invariant", "flagged_iff", "feature_set_exact", "feature_set_only_border",
     "feature_vertices_spec", "feature_degree_spec", "local_feat_spec",
@@ -18,12 +19,20 @@ REQUIRED_THEOREMS = [
     # round 3
     "generated_run_resets", "nth_run_eq_fresh", "fresh_run_is_stateless", "feature_set_exact_after_history",
     "boundary_edges_collected", "boundary_polyline_correct", "border_umbrella_of_umbrella",
+    # round 4: bodies of border.py / features.py translated imperatively + bridges
+    "source_extract_border_cycle_eq_model", "source_extract_border_cycle_default", "source_walk_loop_exits_by_its_condition",
+    "source_border_cycle_correct", "source_extract_border_cycle_all_eq_model", "source_border_cycles_all_correct",
+    "source_extract_boundary_eq_model", "source_boundary_polyline_correct", "cyclesOk_of_mesh",
+    "source_feature_passes_eq_model", "source_feature_set_exact", "source_flag_corners_eq_model", "source_corner_flagging_exact",
 ]
 TRUSTED = [
     "Lean 4.33.0 kernel; axioms ⊆ {propext, Classical.choice, Quot.sound}",
     "threshold translator (features.py: the two DOT_THRESHOLD literals, the comparison operators and the `1 - DOT_THRESHOLD` "
     "expression are read with Python ast; any other shape is refused)",
     "hand-written models Mouette/Model/Border.lean, Features.lean tied to border.py/features.py by the correspondence of this run",
+    "body translator vlib/gen/c01_pylean.py + vocabulary vlib/gen/c15_source.py (how the mesh API border.py/features.py call - "
+    "boundary_vertices, vertex_to_vertices, edge_id, edge_to_faces, geometry.dot(fnormals[..]) < t, attributes used as sets / dicts - "
+    "is rendered in Lean); the bridges Generated = Model are theorems",
     "floating point: the code compares float dot products of (unit) normals; the model compares exact rationals; inputs are "
     "generated away from the thresholds by > 1e-7 or exactly on them with exactly representable dot products",
     "face normals / corner angles themselves belong to C07 (the harness recomputes them independently)",
@@ -767,15 +776,22 @@ def _threshold_site(tree, src, fn_name, want_rhs):
             if lit is not None: raise T.TranslateError(f"{fn_name}: DOT_THRESHOLD assigned twice")
             lit = _const_fraction(n.value, src, fn_name)
     if lit is None: raise T.TranslateError(f"{fn_name}: DOT_THRESHOLD not found")
-    cmps = [n for n in ast.walk(fn) if isinstance(n, ast.Compare) and isinstance(n.left, ast.Call)
-            and isinstance(n.left.func, ast.Attribute) and n.left.func.attr == "dot"]
+    def _is_dot(x): return isinstance(x, ast.Call) and isinstance(x.func, ast.Attribute) and x.func.attr == "dot"
+    cmps = [n for n in ast.walk(fn) if isinstance(n, ast.Compare) and len(n.ops) == 1 and (_is_dot(n.left) or _is_dot(n.comparators[0]))]
     if len(cmps) != 1: raise T.TranslateError(f"{fn_name}: expected exactly one comparison of geometry.dot(...)")
     c = cmps[0]
-    if len(c.ops) != 1 or not isinstance(c.ops[0], ast.Lt):
-        raise T.TranslateError(f"{fn_name}: comparison operator is {type(c.ops[0]).__name__}, expected `<`")
-    if ast.unparse(c.comparators[0]).replace(" ", "") != want_rhs:
-        raise T.TranslateError(f"{fn_name}: right-hand side is `{ast.unparse(c.comparators[0])}`, expected `{want_rhs}`")
-    if [ast.unparse(a) for a in c.left.args] not in (["N1", "N2"], ["N2", "N1"]):
+    # `dot(..) < T`  or, commuted, `T > dot(..)`
+    if _is_dot(c.left) and isinstance(c.ops[0], ast.Lt): call, rhs = c.left, c.comparators[0]
+    elif _is_dot(c.comparators[0]) and isinstance(c.ops[0], ast.Gt): call, rhs = c.comparators[0], c.left
+    else: raise T.TranslateError(f"{fn_name}: comparison operator is {type(c.ops[0]).__name__}, expected `dot(..) < threshold`")
+    if ast.unparse(rhs).replace(" ", "") != want_rhs:
+        raise T.TranslateError(f"{fn_name}: right-hand side is `{ast.unparse(rhs)}`, expected `{want_rhs}`")
+    # the two arguments are the two face normals: two different locals bound together from self.fnormals[..] (any names)
+    args = [ast.unparse(a) for a in call.args]
+    bound = [n for n in ast.walk(fn) if isinstance(n, ast.Assign) and isinstance(n.targets[0], ast.Tuple) and isinstance(n.value, ast.Tuple)
+             and sorted(ast.unparse(t) for t in n.targets[0].elts) == sorted(args)
+             and all(ast.unparse(v).startswith("self.fnormals[") for v in n.value.elts)]
+    if len(args) != 2 or args[0] == args[1] or not bound:
         raise T.TranslateError(f"{fn_name}: dot() is not applied to the two face normals")
     guards = [n for n in ast.walk(fn) if isinstance(n, ast.If) and ast.unparse(n.test) == "self.only_border"
               and len(n.body) == 1 and isinstance(n.body[0], ast.Return)]
@@ -869,8 +885,30 @@ def translate():
     body = (f"def sharpDot : Rat := {lean_rat(sharp)}\ndef hardDelta : Rat := {lean_rat(hard)}\n"
             "def thresholds : Mouette.Features.Thresholds := { sharp := sharpDot, hardDelta := hardDelta }\n")
     T.write_generated("C15Thresholds", body + "end Mouette.Generated.C15\n", "import Mouette.Model.Features\nnamespace Mouette.Generated.C15\n")
-    return [s1, s2, s3]
+    return [s1, s2, s3] + CS.translate_sites()
 
+
+
+# SOURCE_MAP: every function of border.py / features.py -> how it is tied to the Lean side ("translated" = its body is compiled to
+# Generated/C15Border.lean / C15Feat.lean on every run and a bridge theorem of Props/C15Source uses it)
+def _smap():
+    B, F = "mouette/processing/border.py::", "mouette/processing/features.py::FeatureEdgeDetector."
+    m = {B + "extract_border_cycle": "translated", B + "extract_border_cycle_all": "translated", B + "extract_boundary_of_surface": "translated",
+         B + "extract_boundary_of_volume": "out-of-scope: volume meshes (the statement is about surfaces)"}
+    for f in ["_add_border_to_features", "_add_hard_edges_to_features", "_add_sharp_angles_to_features", "_flag_corners"]:
+        m[F + f] = "translated"
+    m[F + "run"] = ("modelled: the reset structure (self.clear() first, .clear() of the existing attribute, private normals) is translated into "
+                    "Generated/C15Run.lean flags; the order of the three passes is checked by the translator; the container loops "
+                    "(feature_edges / feature_vertices / local_feat_edges / feature_degrees) are hand-modelled in Model/FeatRuns.lean")
+    m[F + "clear"] = "modelled: which containers are re-created is read by the translator (Generated/C15Run.lean selfClear)"
+    m[F + "__init__"] = "modelled: the option attributes are inputs of the model"
+    m[F + "detect"] = "modelled: alias of run"
+    for f in ["feature_graph", "corner_point_cloud", "_compute_feature_graph", "_compute_corner_point_cloud"]:
+        m[F + f] = "out-of-scope: visualisation outputs, not part of the statement (run with compute_feature_graph on and off in the history cases)"
+    return m
+
+
+SOURCE_MAP = _smap()
 
 MANIFEST = {
     "level_text": ("Proof. Lean 4 theorems about executable models of FeatureEdgeDetector.run and of the border extraction: the set of "
@@ -883,7 +921,12 @@ MANIFEST = {
                    "every generated surface), extract_border_cycle from ANY boundary vertex returns a repetition-free closed walk along "
                    "border edges (ids = the returned edge list, members of boundary_edges) that covers the whole loop, and "
                    "extract_border_cycle_all returns cycles partitioning the boundary vertices (each loop once); the walk's first step "
-                   "rests on the proved C01 ring_sorted (first ring neighbour = source of the entering border side)."),
+                   "rests on the proved C01 ring_sorted (first ring neighbour = source of the entering border side). Round 4: the BODIES of "
+                   "extract_border_cycle, extract_border_cycle_all, extract_boundary_of_surface, the three feature passes and _flag_corners are "
+                   "compiled statement by statement from border.py/features.py into Generated/C15Border.lean, C15Feat.lean on every run and "
+                   "proved equal to the models (Props/C15Source): border_cycle_correct, the partition into loops, the polyline's edge set + "
+                   "index map, feature_set_exact and the corner rule (±1 below 2π/order, round-half-even above) are theorems about the "
+                   "translated source; the walk's while loop is proved to stop by its own condition within the fuel len(vertices)."),
     "level_note": ("Trusted: Lean kernel + propext/Classical.choice/Quot.sound; threshold translator; hand-written Border/Features "
                    "models (sampled agreement); float vs exact rational comparison away from / exactly on thresholds; the "
                    "boundary polyline's edge set = border edges is correspondence/oracle-only (only the index map is proved)."),
